@@ -9,7 +9,7 @@ from .world import FUNCS
 # rough upper bounds of traced library lines per operation kind, used only to
 # place line faults (a fault placed beyond the end simply does not fire and is
 # counted as such)
-LMAX = {"roundtrip": 1500, "call": 900, "inverse": 700, "backward": 700, "construct": 120, "load": 25,
+LMAX = {"extra": 60, "roundtrip": 1500, "call": 900, "inverse": 700, "backward": 700, "construct": 120, "load": 25,
         "func": 150, "restart": 120}
 
 IO_FAMILIES = ("dtf", "dti", "scat", "scat2")
@@ -42,7 +42,7 @@ BASE_MIX = {
             "set_default_dtype": 2.0, "func": 0.0, "roundtrip": 1.0},
     "C18": {"call": 0.6, "inverse": 0.0, "backward": 0.0, "construct": 3, "convert": 0.0,
             "restart": 0.3, "drop": 0.3, "forget": 0.0, "mutate_output": 0.0, "load": 9,
-            "set_default_dtype": 0.2, "func": 0.0, "roundtrip": 0.0},
+            "set_default_dtype": 0.2, "func": 0.0, "roundtrip": 0.0, "extra": 0.8},
 }
 
 
@@ -311,8 +311,10 @@ def gen_plan(profile, seed, tier="quick"):
                              "leaf_mask": rng.randrange(0, 256) if rng.random() < 0.4 else 0})
             elif k == "convert":
                 cs = rng.randrange(len(slots))
-                how = _pick(rng, ["double", "float", "to64", "to32"])
-                slot_dtype[cs] = "float64" if how in ("double", "to64") else "float32"
+                how = _pick(rng, ["double", "float", "to64", "to32", "double", "float",
+                                  "double_overwrite", "float_overwrite", "reload_assign"])
+                if how != "reload_assign":
+                    slot_dtype[cs] = "float64" if how.startswith(("double", "to64")) else "float32"
                 prog.append({"op": "convert", "id": new_id(), "slot": cs, "how": how})
             elif k == "restart":
                 rs = rng.randrange(len(slots))
@@ -361,6 +363,9 @@ def gen_plan(profile, seed, tier="quick"):
                 else:
                     nm, ld = _pick(rng, tables.INVALID), _pick(rng, tables.LOADERS)
                 prog.append({"op": "load", "id": new_id(), "loader": ld, "name": nm})
+            elif k == "extra":
+                prog.append({"op": "extra", "id": new_id(), "index": rng.randrange(8),
+                             "name": _pick(rng, tables.ALL_NAMES), "flip": rng.randrange(8)})
             elif k == "set_default_dtype":
                 cur_default[0] = _pick(rng, ["float32", "float64"])
                 prog.append({"op": "set_default_dtype", "id": new_id(), "dtype": cur_default[0]})
